@@ -359,13 +359,17 @@ def rules(draw):
         vals = []
         for _ in range(n):
             w = wd()
-            if w.upper() not in [x.upper() for x in vals]:
+            if w.upper() not in [x.upper() for x in vals] or draw(st.integers(0, 5)) == 0:     # now and then a repeated value
                 vals.append(w)
         parts.append([key(draw(st.sampled_from(["BYDAY", "BYDAY", "BYWEEKDAY"]))), scalar_or_list(vals)])
     if draw(st.integers(0, 3)) == 0:
         months = draw(st.lists(st.integers(1, 12), min_size=1, max_size=4, unique=True))
         if draw(st.integers(0, 3)) == 0:
             months = [f"{m}L" if draw(st.booleans()) else (str(m) if draw(st.booleans()) else m) for m in months]
+            if draw(st.booleans()):      # a month next to its leap twin (RFC 7529), and a literally repeated value
+                m0 = months[0]
+                n0 = int(str(m0).rstrip("L"))
+                months = months + [n0 if str(m0).endswith("L") else f"{n0}L"] + ([months[-1]] if draw(st.booleans()) else [])
         parts.append([key("BYMONTH"), scalar_or_list(months)])
     if draw(st.integers(0, 3)) == 0:
         parts.append([key("WKST"), scalar_or_list([_case_variant(draw, draw(st.sampled_from(DAYS)))])])
